@@ -9,7 +9,7 @@ use crate::refmodel::civil::*;
 use crate::refmodel::pillar::*;
 use crate::refmodel::terms::*;
 use tyme4rs::tyme::eightchar::provider::{EightCharProvider, LunarSect2EightCharProvider};
-use tyme4rs::tyme::Culture;
+use tyme4rs::tyme::{Culture, Tyme};
 
 /// model eight characters of an instant (default provider: day rolls at 23:00)
 fn model_chars(civ: &Civil, tm: &Terms, inst: i64, roll: bool) -> Option<[String; 4]> {
@@ -76,6 +76,34 @@ fn check_hour(ctx: &Ctx, civ: &Civil, tm: &Terms, inst: i64, loc: &mut Local) {
       }
     }
     Err(m) => ctx.violation("eight_char", key, format!("panics: {}", m), rp),
+  }
+  // a LunarHour whose lazy views are already filled, stepped by n double-hours, must report the characters of the new instant
+  if h % 2 == 1 && inst % 86400 % 3600 < 1800 && (inst / 86400) % 4 == 0 {
+    for n in [1i64, -1, 5] {
+      let t = inst + 7200 * n;
+      let wantn = match model_chars(civ, tm, t, true) {
+        Some(w) => w,
+        None => continue,
+      };
+      loc.transitions += 1;
+      let r = guard(|| {
+        let lh = mk_time(civ, inst).get_lunar_hour();
+        let _ = lh.get_sixty_cycle_hour();
+        let _ = lh.get_twelve_star();
+        let nx = lh.next(n as isize);
+        let ec = nx.get_eight_char();
+        (ec.get_name(), nx.get_sixty_cycle_hour().get_eight_char().get_name(), nx.get_sixty_cycle().get_name())
+      });
+      let key = format!("{} next({:+})", fmt_inst(civ, inst), n);
+      match r {
+        Ok((a, b, c)) => {
+          if a != wantn.join(" ") || b != wantn.join(" ") || c != wantn[3] {
+            ctx.violation("eight_char", key, format!("after get_sixty_cycle_hour(), next({}) reports [{}] / [{}] / hour {}; model for the new instant {:?}", n, a, b, c, wantn), vec!["hour".into(), inst.to_string()]);
+          }
+        }
+        Err(m) => ctx.violation("eight_char", key, format!("panics: {}", m), vec!["hour".into(), inst.to_string()]),
+      }
+    }
   }
 }
 
@@ -229,6 +257,21 @@ pub fn run(ctx: &Ctx) {
   let ranges: Vec<(isize, isize)> = if ctx.quick() { vec![(0, 0), (1, 1)] } else { vec![(0, 0), (0, 1), (0, 2), (1, 0), (1, 1), (1, 2), (2, 0), (2, 1), (2, 2)] };
   let mut done = true;
   let mut nc = 0u64;
+  // first 40 days of years in the Julian-drift and far-future eras (the month's Jie lies in the previous December there)
+  let jan_years: Vec<i32> = if ctx.quick() { vec![1400, 9900] } else { vec![940, 1120, 1250, 1400, 1582, 9300, 9900] };
+  let mut jan_days: Vec<usize> = Vec::new();
+  for y in &jan_years {
+    let o = civ.ord(*y, 1, 1).unwrap();
+    jan_days.extend(o..o + 40);
+  }
+  nc += 12 * jan_days.len() as u64 * ranges.len() as u64;
+  done &= par_chunks(ctx, 0, jan_days.len(), 4, |x, y, l| {
+    for i in x..y {
+      for bb in 0..12 {
+        check_inverse(ctx, &civ, &tm, jan_days[i], bb, &ranges, l);
+      }
+    }
+  });
   for &(ya, yb) in &eras {
     let (a, b) = civ.year_range(ya, yb);
     nc += 12 * (b - a) as u64 * ranges.len() as u64;
@@ -240,7 +283,7 @@ pub fn run(ctx: &Ctx) {
       }
     });
   }
-  ctx.subspace(&format!("(c) inverse search: every double-hour of every day of years {:?} x year ranges [y-60k, y+60k'] for (k,k') in {:?}", eras, ranges), done, nc);
+  ctx.subspace(&format!("(c) inverse search: every double-hour of every day of years {:?} and of the first 40 days of 2 (quick) / 7 (thorough) years of the Julian-drift and far-future eras x year ranges [y-60k, y+60k'] for (k,k') in {:?}", eras, ranges), done, nc);
   for inst in [civ.ord(2023, 12, 31).unwrap() as i64 * 86400 + 23 * 3600 + 100, civ.ord(2024, 2, 4).unwrap() as i64 * 86400 + 16 * 3600 + 26 * 60 + 53] {
     let got = guard(|| mk_time(&civ, inst).get_lunar_hour().get_eight_char().get_name());
     ctx.sample(format!("{}: impl {:?}; model {:?}", fmt_inst(&civ, inst), got, model_chars(&civ, &tm, inst, true)));
